@@ -337,6 +337,21 @@ func swapInGapsNs(seq []byte) []byte {
 // 	return header, nil
 // }
 
+// getSamHeader waits for the header that groupSamRecords sends (or for the error it reports if the
+// stream cannot be read), and checks that it names a reference sequence
+func getSamHeader(cHeader chan biogosam.Header, cErr chan error) (biogosam.Header, error) {
+	var header biogosam.Header
+	select {
+	case err := <-cErr:
+		return header, err
+	case header = <-cHeader:
+	}
+	if len(header.Refs()) == 0 {
+		return header, errors.New("no reference sequence (@SQ line) in the SAM header: is the input empty or missing its header?")
+	}
+	return header, nil
+}
+
 // groupSamRecords yields blocks of sam records that correspond to the same query
 // sequence (to a channel)
 func groupSamRecords(sam io.Reader, cHeader chan biogosam.Header, chnl chan samRecords, cdone chan bool, cerr chan error) {
@@ -346,6 +361,7 @@ func groupSamRecords(sam io.Reader, cHeader chan biogosam.Header, chnl chan samR
 	s, err := biogosam.NewReader(sam)
 	if err != nil {
 		cerr <- err
+		return
 	}
 
 	cHeader <- *s.Header()
